@@ -53,10 +53,11 @@ impl FromMetaOptions {
             if let Data::Enum(ref variants) = self.base.data {
                 // The first variant which has `word` set to `true`.
                 // This assumes that validation has prevented multiple variants
-                // from claiming `word`.
-                let variant = variants
-                    .iter()
-                    .find(|v| v.word.map(|x| *x).unwrap_or_default())?;
+                // from claiming `word`. A skipped variant is never produced,
+                // not even for the bare word.
+                let variant = variants.iter().find(|v| {
+                    v.word.map(|x| *x).unwrap_or_default() && !v.skip.unwrap_or_default()
+                })?;
                 let variant_ident = &variant.ident;
                 let closure: syn::ExprClosure = parse_quote! {
                     || ::darling::export::Ok(Self::#variant_ident)
